@@ -180,7 +180,9 @@ Proof.
       destruct (L HWx) as (_ & _ & ext & E & J & _). cbn [snd] in E. rewrite E.
       apply jc_app. split; [apply jc_quiet; reflexivity|]. eapply jc_ext; [|exact J]. intros x [].
     + apply jc_quiet. unfold on_retract_response in H. destruct (retract_response_states _ w ids []) as [c' groups].
-      change outs with (snd (s', outs)). rewrite (send_redirected_snd _ _ _ H). reflexivity.
+      apply bind_ok in H. destruct H as (s2 & H & H2).
+      assert (Es : snd (s', outs) = snd s2) by (destruct (retract_wakes _ _ _ _); inversion H2; subst; reflexivity).
+      change outs with (snd (s', outs)). rewrite Es, (send_redirected_snd _ _ _ H). reflexivity.
   - destruct (c_flag (s_core s)); [|discriminate]. apply jc_quiet.
     change outs with (snd (s', outs)). rewrite (run_scheduling_snd _ _ _ H). reflexivity.
   - destruct (find_proc _ w) as [p|]; [|discriminate]. inv_binds H. inversion H; subst. apply jc_quiet. apply tids_launch.
